@@ -6,7 +6,7 @@
    are the only ones used. *)
 From Coq Require Import List Arith ZArith Bool Lia Ring Reals Lra Sorting.Permutation.
 From Coquelicot Require Import Coquelicot.
-From PM Require Import C20Model.
+From PM Require Import C20Model C20Real.
 Import ListNotations.
 Arguments gpeval : simpl never.
 
@@ -147,23 +147,6 @@ End PolyThm.
 (* Part 2: the real instance                                                  *)
 (* ========================================================================= *)
 Local Open Scope R_scope.
-
-Definition peval := gpeval R 0 Rplus Rmult.
-Definition padd := gpadd R 0 Rplus.
-Definition psub := gpsub R 0 Rminus.
-Definition pneg := gpneg R Ropp.
-Definition pmul := gpmul R 0 Rplus Rmult.
-Definition ppow := gppow R 0 1 Rplus Rmult.
-Definition pderiv := gpderiv R 0 Rplus.
-Definition ppad := gpad R 0.
-
-(* closes the generated obligations: the list functions are unfolded on the explicit coefficient
-   lists, what remains is a polynomial identity over R *)
-Ltac c20_unfold :=
-  cbv beta iota zeta delta [peval padd psub pneg pmul ppow pderiv ppad gpeval gpeval_acc gpad gmap2 gpadd gpsub
-    gpneg gpmul gppow gpderiv gpderiv_aux gnmul gpow List.map List.app List.repeat List.length List.nth
-    Nat.max Nat.sub Init.Nat.max Init.Nat.sub] in *.
-Ltac c20_ring := c20_unfold; repeat split; ring.
 
 Lemma gpow_R : forall x n, gpow R 1 Rmult x n = x ^ n.
 Proof. induction n as [|n IH]; simpl; [reflexivity | rewrite IH; reflexivity]. Qed.
@@ -483,4 +466,198 @@ Proof.
   unfold quad_roots. rewrite Eraw. simpl. destruct (Rlt_dec (t / a) (c / t)) as [L|G].
   - exists (t / a), (c / t). split; [reflexivity|]. split; [assumption|]. intros r. rewrite Roots. tauto.
   - exists (c / t), (t / a). split; [reflexivity|]. split; [lra|]. intros r. rewrite Roots. tauto.
+Qed.
+
+(* ========================================================================= *)
+(* Part 4: post-processing of roots() for order >= 3 (integer instance)       *)
+(* ========================================================================= *)
+Local Open Scope Z_scope.
+
+Local Notation zinsert := (insert Z Z.leb).
+Local Notation zisort := (isort Z Z.leb).
+Local Notation zsomes := (somes Z).
+Local Notation zsort_masked := (sort_masked Z Z.leb).
+Local Notation zdedup := (dedup Z Z.eqb).
+Local Notation zdedup_from := (dedup_from Z Z.eqb).
+
+Fixpoint sorted_le (l : list Z) : Prop :=
+  match l with
+  | [] => True
+  | x :: l' => match l' with [] => True | y :: _ => x <= y end /\ sorted_le l'
+  end.
+Fixpoint sorted_lt (l : list Z) : Prop :=
+  match l with
+  | [] => True
+  | x :: l' => match l' with [] => True | y :: _ => x < y end /\ sorted_lt l'
+  end.
+
+Lemma sorted_lt_le : forall l, sorted_lt l -> sorted_le l.
+Proof.
+  induction l as [|x l IH]; simpl; [tauto|]. intros [H1 H2]. split; [|auto].
+  destruct l; [exact I|lia].
+Qed.
+
+Lemma insert_in : forall v x l, In v (zinsert x l) <-> v = x \/ In v l.
+Proof.
+  intros v x. induction l as [|y l IH]; simpl.
+  - intuition.
+  - destruct (x <=? y); simpl; [intuition|]. rewrite IH. intuition.
+Qed.
+
+Lemma insert_sorted : forall x l, sorted_le l -> sorted_le (zinsert x l).
+Proof.
+  intros x. induction l as [|y l IH]; intros H; simpl.
+  - tauto.
+  - destruct (x <=? y) eqn:E.
+    + apply Z.leb_le in E. simpl. simpl in H. tauto.
+    + apply Z.leb_gt in E. simpl in H. destruct H as [H1 H2]. specialize (IH H2).
+      destruct l as [|z l]; simpl in *.
+      * split; [lia|tauto].
+      * destruct (x <=? z) eqn:E2; simpl; (split; [first [apply Z.leb_le in E2; lia | lia]| assumption]).
+Qed.
+
+Lemma isort_in : forall v l, In v (zisort l) <-> In v l.
+Proof. intros v. induction l as [|x l IH]; simpl; [tauto|]. rewrite insert_in, IH. intuition. Qed.
+
+Lemma isort_sorted : forall l, sorted_le (zisort l).
+Proof. induction l as [|x l IH]; simpl; [exact I|]. apply insert_sorted, IH. Qed.
+
+Lemma insert_length : forall x l, length (zinsert x l) = S (length l).
+Proof. intros x. induction l as [|y l IH]; simpl; [reflexivity|]. destruct (x <=? y); simpl; congruence. Qed.
+
+Lemma isort_length : forall l, length (zisort l) = length l.
+Proof. induction l as [|x l IH]; simpl; [reflexivity|]. rewrite insert_length, IH. reflexivity. Qed.
+
+Lemma isort_id : forall l, sorted_le l -> zisort l = l.
+Proof.
+  induction l as [|x l IH]; intros H; simpl; [reflexivity|].
+  simpl in H. destruct H as [H1 H2]. rewrite (IH H2).
+  destruct l as [|y l]; simpl; [reflexivity|].
+  destruct (x <=? y) eqn:E; [reflexivity|]. apply Z.leb_gt in E. lia.
+Qed.
+
+Lemma somes_pad : forall s k, zsomes (map Some s ++ repeat None k) = s.
+Proof.
+  induction s as [|x s IH]; intros k; simpl.
+  - induction k as [|k IHk]; simpl; [reflexivity|exact IHk].
+  - rewrite IH. reflexivity.
+Qed.
+
+Lemma somes_length_le : forall l, (length (zsomes l) <= length l)%nat.
+Proof. induction l as [|[x|] l IH]; simpl; lia. Qed.
+
+Lemma sort_masked_length : forall l, length (zsort_masked l) = length l.
+Proof.
+  intros. unfold sort_masked. rewrite app_length, map_length, repeat_length, isort_length.
+  pose proof (somes_length_le l). lia.
+Qed.
+
+(* after the sort, an unmasked entry equal to its predecessor becomes masked: on a sorted list
+   this keeps exactly one copy of every value, in strictly increasing order *)
+Lemma dedup_from_spec : forall l prev, sorted_le (prev :: l) ->
+  sorted_lt (prev :: zsomes (zdedup_from prev l)) /\
+  (forall v, In v (prev :: zsomes (zdedup_from prev l)) <-> In v (prev :: l)) /\
+  length (zdedup_from prev l) = length l.
+Proof.
+  induction l as [|y l IH]; intros prev H.
+  - simpl. intuition.
+  - simpl in H. destruct H as [H1 H2]. specialize (IH y H2). destruct IH as (S1 & I1 & L1).
+    simpl zdedup_from. destruct (y =? prev) eqn:E.
+    + apply Z.eqb_eq in E. subst y. simpl zsomes. split; [exact S1|]. split.
+      * intros v. rewrite I1. simpl. tauto.
+      * simpl. congruence.
+    + apply Z.eqb_neq in E. simpl zsomes. split; [|split].
+      * split; [lia|]. exact S1.
+      * intros v. split.
+        -- intros [H|H]; [left; exact H|]. right. apply I1. exact H.
+        -- intros [H|H]; [left; exact H|]. right. apply I1. exact H.
+      * simpl. congruence.
+Qed.
+
+Lemma dedup_spec : forall l, sorted_le l ->
+  sorted_lt (zsomes (zdedup l)) /\ (forall v, In v (zsomes (zdedup l)) <-> In v l) /\
+  length (zdedup l) = length l.
+Proof.
+  intros [|x l] H; simpl; [tauto|].
+  destruct (dedup_from_spec l x H) as (S1 & I1 & L1). split; [exact S1|]. split; [exact I1|].
+  simpl. congruence.
+Qed.
+
+Lemma somes_app_nones : forall l k, zsomes (l ++ repeat None k) = zsomes l.
+Proof.
+  induction l as [|[x|] l IH]; intros k; simpl.
+  - induction k as [|k IHk]; simpl; [reflexivity|exact IHk].
+  - rewrite IH. reflexivity.
+  - apply IH.
+Qed.
+
+(* THE RESULT: relative to whatever survives the masking steps 1+2 (vals), roots() returns the
+   distinct values of vals in strictly increasing order, padded with masked entries to the
+   original length *)
+Theorem roots_post_spec : forall pmask shifts l,
+  let vals := zsomes (step_mask Z Z.leb Z.eqb pmask shifts l) in
+  exists rs, zroots_post pmask shifts l = map Some rs ++ repeat None (length l - length rs) /\
+             sorted_lt rs /\ (forall v, In v rs <-> In v vals) /\ (length rs <= length l)%nat.
+Proof.
+  intros pmask shifts l vals. unfold zroots_post, roots_post.
+  set (m := step_mask Z Z.leb Z.eqb pmask shifts l) in *.
+  assert (Lm : length m = length l).
+  { unfold m, step_mask. rewrite map_length, combine_length. unfold ranks.
+    assert (RL : forall b k, length (ranks_aux Z Z.leb Z.eqb b k) = length k).
+    { intros b k. revert b. induction k as [|e k IHk]; intros b; simpl; [reflexivity|]. rewrite IHk. reflexivity. }
+    rewrite RL. lia. }
+  set (s1 := zsort_masked m).
+  assert (Ls1 : length s1 = length l) by (unfold s1; rewrite sort_masked_length; exact Lm).
+  assert (Es1 : zsomes s1 = zisort vals) by (unfold s1, sort_masked; apply somes_pad).
+  rewrite Es1.
+  destruct (dedup_spec (zisort vals) (isort_sorted vals)) as (S1 & I1 & L1).
+  set (d := zdedup (zisort vals)) in *.
+  exists (zsomes d). unfold sort_masked at 1. rewrite somes_app_nones.
+  rewrite (isort_id (zsomes d)) by (apply sorted_lt_le; exact S1).
+  assert (Ld : (length d <= length l)%nat).
+  { rewrite L1, isort_length. unfold vals. rewrite <- Lm. apply somes_length_le. }
+  assert (Lsd : (length (zsomes d) <= length d)%nat) by apply somes_length_le.
+  rewrite app_length, repeat_length.
+  replace (length d + (length s1 - length d))%nat with (length l) by lia.
+  split; [reflexivity|]. split; [exact S1|]. split; [|lia].
+  intros v. rewrite I1. apply isort_in.
+Qed.
+
+(* steps 1+2 never unmask: every surviving value is the real part of a real eigenvalue of an
+   unmasked polynomial *)
+Theorem step_mask_sound : forall pmask shifts l v,
+  In (Some v) (step_mask Z Z.leb Z.eqb pmask shifts l) ->
+  pmask = false /\ exists e, In e l /\ e_cplx e = false /\ e_re e = v.
+Proof.
+  intros pmask shifts l v H. unfold step_mask in H. apply in_map_iff in H.
+  destruct H as ([e r] & H1 & H2).
+  destruct pmask; simpl in H1; [discriminate|].
+  destruct (e_cplx e) eqn:Ec; simpl in H1; [discriminate|].
+  destruct (Nat.ltb r shifts); [discriminate|]. injection H1 as <-.
+  split; [reflexivity|]. exists e. split; [|tauto]. apply in_combine_l in H2. exact H2.
+Qed.
+
+(* step 2, bounded-exhaustive (B): for every list of at most 4 real eigenvalues with magnitudes
+   in 0..2 and every shift count 0..4, exactly min(shifts, n) entries are masked and no masked
+   entry has a larger magnitude than an unmasked one *)
+Definition mags_upto (n : nat) : list (list Z) :=
+  (fix go (k : nat) : list (list Z) :=
+     match k with
+     | O => [[]]
+     | S k' => let r := go k' in r ++ flat_map (fun l => [0 :: l; 1 :: l; 2 :: l]) (filter (fun l => Nat.eqb (length l) k') r)
+     end) n.
+Definition shift_ok (shifts : nat) (mags : list Z) : bool :=
+  let l := map (fun m => mkeig m false m) mags in
+  let r := step_mask Z Z.leb Z.eqb false shifts l in
+  let masked := map fst (filter (fun p => match snd p with None => true | Some _ => false end) (combine mags r)) in
+  let kept := zsomes r in
+  Nat.eqb (length masked) (Nat.min shifts (length mags)) &&
+  forallb (fun a => forallb (fun b => a <=? b) kept) masked.
+Definition shift_space : list (nat * list Z) :=
+  flat_map (fun s => map (fun l => (s, l)) (mags_upto 4)) [0; 1; 2; 3; 4]%nat.
+
+Theorem step_mask_smallest_B : forall s mags, In (s, mags) shift_space -> shift_ok s mags = true.
+Proof.
+  assert (H : forallb (fun p => shift_ok (fst p) (snd p)) shift_space = true) by (vm_compute; reflexivity).
+  intros s mags Hin. rewrite forallb_forall in H. exact (H (s, mags) Hin).
 Qed.
